@@ -94,9 +94,16 @@ func TestDrv_C15(t *testing.T) {
 							defer wg.Done()
 							<-start
 							eofs := 0
+							var slot vegeta.Target
 							for k := 0; ; k++ {
-								var tg vegeta.Target
-								err := tgr(&tg)
+								var fresh vegeta.Target
+								tg := &fresh
+								if g%2 == 1 && kind != "json" {
+									// every other caller keeps one variable for all its draws, the ordinary
+									// `var t Target; for tr(&t) == nil` loop (the JSON format documents merging into it)
+									tg = &slot
+								}
+								err := tgr(tg)
 								switch {
 								case err == vegeta.ErrNoTargets:
 									perCaller[g] = append(perCaller[g], 0)
@@ -104,7 +111,7 @@ func TestDrv_C15(t *testing.T) {
 								case err != nil:
 									perCaller[g] = append(perCaller[g], -2)
 								default:
-									perCaller[g] = append(perCaller[g], idOf(&tg))
+									perCaller[g] = append(perCaller[g], idOf(tg))
 								}
 								if kind == "static" && k+1 >= (3*n)/callers+g%3+1 {
 									return
